@@ -1210,6 +1210,43 @@ def _on_line(code, lineno):
     s.yield_(f"line:{code.co_name}:{lineno}")
 
 
+def _on_instruction(code, offset):
+    s = _CUR
+    if s is None or s.aborting:
+        return
+    t = s.cur
+    if t is None or _rt.current_thread() is not t.real:
+        return
+    s.yield_(f"ins:{code.co_name}:{offset}")
+
+
+_mon_ins_on = False
+_mon_ins_codes = set()
+
+
+def enable_instruction_yields(funcs):
+    """Make every bytecode instruction of the given functions a yield point (sys.monitoring INSTRUCTION events, local to
+    their code objects).  For the few lines that touch shared state without any lock: two reads in ONE expression are two
+    yield points (line-level yield points cannot separate them)."""
+    global _mon_on, _mon_ins_on
+    mon = sys.monitoring
+    if not _mon_on and not _mon_ins_on:
+        try:
+            mon.use_tool_id(_MON_TOOL, "detsched")
+        except ValueError:
+            pass
+    if not _mon_ins_on:
+        mon.register_callback(_MON_TOOL, mon.events.INSTRUCTION, _on_instruction)
+        _mon_ins_on = True
+    for f in funcs:
+        code = getattr(f, "__code__", f)
+        if code in _mon_ins_codes:
+            continue
+        _mon_ins_codes.add(code)
+        cur = mon.get_local_events(_MON_TOOL, code)
+        mon.set_local_events(_MON_TOOL, code, cur | mon.events.INSTRUCTION)
+
+
 def enable_line_yields(funcs):
     """Make every source line of the given functions a yield point (sys.monitoring LINE events, local to their
     code objects; DESIGN §5.2).  Used for code that touches shared state without a lock."""
@@ -1227,4 +1264,5 @@ def enable_line_yields(funcs):
         if code in _mon_codes:
             continue
         _mon_codes.add(code)
-        mon.set_local_events(_MON_TOOL, code, mon.events.LINE)
+        cur = mon.get_local_events(_MON_TOOL, code)
+        mon.set_local_events(_MON_TOOL, code, cur | mon.events.LINE)
